@@ -1,5 +1,5 @@
 INIT TreeInit
-NEXT Next
+NEXT TreeNext
 CONSTANTS
   Fixes <- EnvFixes
   AtomSet = {"a"}
